@@ -45,17 +45,30 @@ FirstNL(s) == IF \E i \in 1 .. Len(s) : s[i] = NL
               ELSE 0
 
 \* --- compact form --------------------------------------------------------
-\* d = [off, n, tail] stands for  <<StreamByte(off) .. StreamByte(off+n-1)>> \o tail
-D(off, n, tail) == [off |-> off, n |-> n, tail |-> tail]
-DLen(d)    == d.n + Len(d.tail)
-DExpand(d) == [i \in 1 .. d.n |-> StreamByte(d.off + i - 1)] \o d.tail
+\* d = [head, off, n, tail] stands for
+\*     head \o <<StreamByte(off) .. StreamByte(off+n-1)>> \o tail
+\* (head is empty except in the invalid-UTF-8 scenarios, where a marker byte
+\* may precede the stream part)
+DH(head, off, n, tail) == [head |-> head, off |-> off, n |-> n, tail |-> tail]
+D(off, n, tail) == DH(<<>>, off, n, tail)
+DLen(d)    == Len(d.head) + d.n + Len(d.tail)
+DExpand(d) == d.head \o [i \in 1 .. d.n |-> StreamByte(d.off + i - 1)] \o d.tail
 DCat(d, t) == [d EXCEPT !.tail = @ \o t]
 
 RECURSIVE DStripN(_, _)
 DStripN(off, n) == IF n > 0 /\ StreamByte(off + n - 1) = NL THEN DStripN(off, n - 1) ELSE n
 DStrip(d) == LET t == Strip(d.tail)
+                 m == DStripN(d.off, d.n)
              IN IF t # <<>> THEN [d EXCEPT !.tail = t]
-                ELSE [d EXCEPT !.tail = <<>>, !.n = DStripN(d.off, d.n)]
+                ELSE IF m > 0 THEN [d EXCEPT !.tail = <<>>, !.n = m]
+                ELSE [d EXCEPT !.tail = <<>>, !.n = 0, !.head = Strip(@)]
+
+\* d without its last k bytes
+RECURSIVE DTrim(_, _)
+DTrim(d, k) == IF k = 0 THEN d
+               ELSE IF d.tail # <<>> THEN DTrim([d EXCEPT !.tail = SubSeq(@, 1, Len(@) - 1)], k - 1)
+               ELSE IF d.n > 0 THEN DTrim([d EXCEPT !.n = @ - 1], k - 1)
+               ELSE DTrim([d EXCEPT !.head = SubSeq(@, 1, Len(@) - 1)], k - 1)
 
 \* How a sink probe summarises a byte string b against the stream starting at
 \* base: its length, the first position that deviates from the stream (-1 if
@@ -65,7 +78,7 @@ SeqRep(b, base) ==
   IN IF bad = {} THEN [len |-> Len(b), fb |-> -1, rest |-> <<>>]
      ELSE LET i == CHOOSE x \in bad : \A y \in bad : x <= y
           IN [len |-> Len(b), fb |-> i - 1, rest |-> SubSeq(b, i, Len(b))]
-\* the same summary computed on the compact form (base = d.off)
+\* the same summary computed on the compact form (base = d.off; head empty)
 DRep(d) ==
   LET bad == {j \in 1 .. Len(d.tail) : d.tail[j] # StreamByte(d.off + d.n + j - 1)}
   IN IF bad = {} THEN [len |-> DLen(d), fb |-> -1, rest |-> <<>>]
@@ -102,6 +115,8 @@ CEmit(n, word)  == Term("emit", n, <<>>, <<>>, <<word>>, FALSE)   \* emit n WORD
 CPipe(cmd, fs)  == Term("pipe", 0, <<>>, fs, <<cmd>>, FALSE)      \* cmd | f1 | f2 ...  (copying filters)
 CSeq(a, b)      == Term("seq", 0, <<>>, <<>>, <<a, b>>, FALSE)    \* { a; b; }
 CHere(n, t, fs) == Term("here", n, t, fs, <<>>, FALSE)            \* cat <<'EOF' | f1 ...  with body stream(n) \o t
+CEmitB(c)       == Term("emitb", 0, c, <<>>, <<>>, FALSE)          \* emitb HEX : the bytes c verbatim (any value 1..255)
+CEmitO(off, n)  == Term("emito", n, <<off>>, <<>>, <<>>, FALSE)    \* emito OFF N : stream bytes off .. off+n-1
 \* scenarios (how the result is observed)
 FSink(cmd, direct) == Term("sink", 0, <<>>, <<>>, <<cmd>>, direct)  \* cmd | csink t        (direct: csink t <<'EOF')
 FFile(cmd)         == Term("file", 0, <<>>, <<>>, <<cmd>>, FALSE)   \* cmd > f; csink t < f
@@ -111,22 +126,31 @@ FVarHere(cmd)      == Term("varhere", 0, <<>>, <<>>, <<cmd>>, FALSE) \* v=$(cat 
 FHWord(word)       == Term("hword", 0, <<>>, <<>>, <<word>>, FALSE) \* csink t <<EOF / $(cmd) / EOF
 FRead(cmd, rest)   == Term("read", 0, <<>>, <<>>, <<cmd>>, rest)    \* cmd | { read -r x; val x "$x"; [csink t OFF;] }
 FPar(c1, c2)       == Term("par", 0, <<>>, <<>>, <<c1, c2>>, FALSE) \* c1 | csink a & c2 | csink b; wait
+\* the pipeline is started while some of the descriptors 0, 1, 2 are closed
+\* (code = 1 stdin + 2 stdout + 4 stderr), so that pipe() hands out 0/1/2 as
+\* pipe ends; the last stage writes to descriptor 3, a file read afterwards
+FClosed(cmd, code) == Term("closed", code, <<>>, <<>>, <<cmd>>, FALSE) \* { cmd >&3; } 3>f <&- >&-; csink t < f
+\* command substitution whose output is not valid UTF-8
+FVarU(word)        == Term("varu", 0, <<>>, <<>>, <<word>>, FALSE)  \* v=WORD; valu t "$v"
 
-Undefined == D(-1, 0, <<>>)       \* the term is outside the compact form (never generated)
+Undefined == DH(<<0>>, -1, 0, <<>>)       \* the term is outside the compact form (never generated)
 
 \* d1 followed by d2, when the result has the compact form
-DJoin(d1, d2) == IF d2.n = 0 THEN DCat(d1, d2.tail)
-                 ELSE IF DLen(d1) = 0 THEN d2
-                 ELSE IF d1.tail = <<>> /\ d2.off = d1.off + d1.n THEN [d2 EXCEPT !.off = d1.off, !.n = d1.n + d2.n]
+DJoin(d1, d2) == IF d2.n = 0 THEN DCat(d1, d2.head \o d2.tail)
+                 ELSE IF d1.n = 0 THEN [d2 EXCEPT !.head = d1.head \o d1.tail \o @]
+                 ELSE IF d1.tail = <<>> /\ d2.head = <<>> /\ d2.off = d1.off + d1.n
+                 THEN [d1 EXCEPT !.n = d1.n + d2.n, !.tail = d2.tail]
                  ELSE Undefined
 
 RECURSIVE Out(_), Val(_)
 Out(cmd) == CASE cmd.k = "emit" -> LET v == Val(cmd.ch[1])
                                    IN IF cmd.n = 0 THEN v
-                                      ELSE IF v.n = 0 THEN D(0, cmd.n, v.tail) ELSE Undefined
+                                      ELSE IF v.n = 0 THEN D(0, cmd.n, v.head \o v.tail) ELSE Undefined
               [] cmd.k = "pipe" -> Out(cmd.ch[1])
               [] cmd.k = "seq"  -> DJoin(Out(cmd.ch[1]), Out(cmd.ch[2]))
               [] cmd.k = "here" -> D(0, cmd.n, cmd.c)
+              [] cmd.k = "emitb" -> D(0, 0, cmd.c)
+              [] cmd.k = "emito" -> D(cmd.c[1], cmd.n, <<>>)
 Val(word) == IF word.k = "lit" THEN D(0, 0, word.c) ELSE DStrip(Out(word.ch[1]))
 
 \* `read -r x` on input d whose first newline lies in the stream part:
@@ -134,14 +158,31 @@ Val(word) == IF word.k = "lit" THEN D(0, 0, word.c) ELSE DStrip(Out(word.ch[1]))
 ReadLine(d) == LET k == DFirstNLInStream(d) IN D(d.off, k - 1, <<>>)
 ReadRest(d) == LET k == DFirstNLInStream(d) IN D(d.off + k, d.n - k, d.tail)
 
-\* Expected observations of a scenario: the set of [tag, off, rep] that the
+\* INVALID UTF-8 in the output of a command substitution.  POSIX does not
+\* define how bytes that do not form characters are decoded, so only what C14
+\* needs is stated: nothing VALID is lost or reordered.  In the catalogue every
+\* byte >= 128 belongs to an invalid sequence (a "marker"); an implementation
+\* may replace a marker by one or more U+FFFD or drop it.  The sink probe
+\* `valu` removes every U+FFFD from the value; what remains must be the valid
+\* bytes, in order, minus trailing newlines -- where the implementation that
+\* replaces stops stripping at a marker (upper bound a) and the one that drops
+\* strips through it (lower bound s).
+Clean(d) == [d EXCEPT !.head = SelectSeq(@, LAMBDA b : b < 128), !.tail = SelectSeq(@, LAMBDA b : b < 128)]
+UReps(v) == LET a == Clean(v)
+                s == DStrip(a)
+            IN {DRep(DTrim(a, k)) : k \in 0 .. (DLen(a) - DLen(s))}
+
+\* Expected observations of a scenario: the set of [tag, off, reps] that the
 \* sink probes (`csink TAG OFF`, `val TAG VALUE OFF`) must report, each
-\* exactly once; lossy = a writer may legitimately see EPIPE because the
-\* consumer stops reading.
-Obs(tag, d) == [tag |-> tag, off |-> d.off, rep |-> DRep(d)]
+\* exactly once, with a summary in reps (one element except for invalid
+\* UTF-8); lossy = a writer may legitimately see EPIPE because the consumer
+\* stops reading.  off = -1: outside the compact form (never generated).
+Obs(tag, d) == [tag |-> tag, off |-> IF d.head = <<>> THEN d.off ELSE -1, reps |-> {DRep(d)}]
 Expect(sc) ==
-  CASE sc.k \in {"sink", "file"} -> {Obs("t", Out(sc.ch[1]))}
+  CASE sc.k \in {"sink", "file", "closed"} -> {Obs("t", Out(sc.ch[1]))}
     [] sc.k \in {"var", "arg"}   -> {Obs("t", Val(sc.ch[1]))}
+    [] sc.k = "varu"             -> LET v == Val(sc.ch[1])
+                                    IN {[tag |-> "t", off |-> IF Clean(v).head = <<>> THEN v.off ELSE -1, reps |-> UReps(v)]}
     [] sc.k = "varhere"          -> {Obs("t", DStrip(Out(sc.ch[1])))}
     [] sc.k = "hword"            -> {Obs("t", DCat(Val(sc.ch[1]), <<NL>>))}
     [] sc.k = "read"             -> {Obs("x", ReadLine(Out(sc.ch[1])))}
